@@ -141,8 +141,7 @@ ActCost(R, m, ga, s) ==
        cs == {i \in DOMAIN m.costs : m.costs[i].a = ga.a}
    IN IF cs = {} THEN (IF m.default.op = "none" THEN UNDEF ELSE Eval(R, m.default, s, <<>>))
       ELSE Eval(R, m.costs[CHOOSE i \in cs : TRUE].c, s, ParEnv(a, ga))
-MetricValue(R, plan, S) ==
-   LET m == R.P.metric IN
+MetricValue(m, R, plan, S) ==
    CASE m.kind = "none" -> NONE
      [] m.kind = "length" -> NV(Len(plan), 1)
      [] m.kind \in {"minfinal", "maxfinal"} -> Eval(R, m.expr, S[Len(S)], <<>>)
